@@ -57,6 +57,11 @@ func (s *SCTP) Deliver(stream uint16, b []byte) {
 	}
 	vs.Touch(s, "sctp.deliver")
 }
+// DeliverEmpty queues an empty read: SCTPRead answers it with (0, info of that stream, nil).
+func (s *SCTP) DeliverEmpty(stream uint16) {
+	s.in = append(s.in, Chunk{stream, []byte{}})
+	vs.Touch(s, "sctp.deliver")
+}
 func (s *SCTP) PeerEOF()        { s.eof = true; vs.Touch(s, "sctp.eof") }
 func (s *SCTP) PeerErr(e error) { s.rerr = e; vs.Touch(s, "sctp.rerr") }
 
